@@ -1,0 +1,19 @@
+// Verification hooks, compiled only with `--cfg yamaquasi_verif`.
+// Observers are unset by default: no behaviour changes unless a harness installs one.
+
+use std::sync::OnceLock;
+
+use crate::relations::Relation;
+use crate::Uint;
+
+type RelationObserver = Box<dyn Fn(&Uint, &Relation) + Send + Sync>;
+
+/// Called with (modulus, relation) for every relation published as complete
+/// by a RelationSet.
+pub static RELATION_OBSERVER: OnceLock<RelationObserver> = OnceLock::new();
+
+pub fn observe_relation(n: &Uint, r: &Relation) {
+    if let Some(f) = RELATION_OBSERVER.get() {
+        f(n, r)
+    }
+}
